@@ -742,5 +742,27 @@ def generate():
     sv = ast.unparse(P.find_def(bm, "Banana.setOutgoingVocabulary"))
     require(sv, ["vocabDict = dict(list(zip(vocabStrings, list(range(len(vocabStrings))))))", "s = ReplaceVocabSlicer(vocabDict)",
                  "self.send(s)"], "Banana.setOutgoingVocabulary")
+    # the receiver's limit on a table word: ReplaceVocabUnslicer.valueConstraint = ByteStringConstraint(N), applied by checkToken to
+    # the STRING header of every value (a longer word is a Violation: the rest of the set-vocab sequence is discarded, the OLD table stays)
+    from foolscap import constraint as c_mod
+    vc = s_vocab.ReplaceVocabUnslicer.valueConstraint
+    if vc is None:
+        lim = None
+    elif type(vc) is c_mod.ByteStringConstraint and (vc.maxLength is None or type(vc.maxLength) is int) and vc.minLength == 0:
+        lim = vc.maxLength
+    else:
+        raise P.Untranslatable("ReplaceVocabUnslicer.valueConstraint is not ByteStringConstraint(maxLength)")
+    require(body_src(P.find_def(vm, "ReplaceVocabUnslicer.checkToken")),
+            ["if typebyte != STRING:", "if self.valueConstraint:\n", "self.valueConstraint.checkToken(typebyte, size)"],
+            "ReplaceVocabUnslicer.checkToken")
+    if s_vocab.ReplaceVocabUnslicer.maxKeys is not None:
+        raise P.Untranslatable("ReplaceVocabUnslicer.maxKeys is set")
+    cm = P.load("constraint.py")
+    require(body_src(P.find_def(cm, "ByteStringConstraint.__init__")), ["self.taster = {STRING: self.maxLength, VOCAB: None}"],
+            "ByteStringConstraint.__init__")
+    require(body_src(P.find_def(cm, "Constraint.checkToken")), ["limit = self.taster.get(typebyte, 'not in list')", "if limit is not None and size > limit:"],
+            "Constraint.checkToken")
+    out.append("Definition vocab_word_limit : option Z := %s.  (* ReplaceVocabUnslicer.valueConstraint = ByteStringConstraint(maxLength) *)"
+               % ("None" if lim is None else "Some %d" % lim))
     out.append("Definition vocab_shape_checked : bool := true.  (* set-vocab: table {} while the sequence is sent, new table after it *)")
     return {"SlicersGen.v": "\n\n".join(out) + "\n"}
